@@ -199,6 +199,7 @@ func (e *Engine) GetRateLimit() int {
 func (e *Engine) LoadTemplates(filtername string) error {
 	e.Lock()
 	defer e.Unlock()
+	verifYield("load:locked")
 
 	if !atomic.CompareAndSwapInt32(&e.templatesLoaded, 0, 1) && filtername == "" {
 		return errors.New("Can not preload all templates again")
@@ -345,6 +346,7 @@ func (e *Engine) Render(ctx context.Context, templateName string, data interface
 
 	// recompile, make sure to fully load only once!
 	if atomic.LoadInt32(&e.templatesLoaded) == 0 && !e.Debug {
+		verifYield("render:before-load")
 		_, spanLoad := trace.StartSpan(ctx, "pug/loadAllTemplates")
 		if err := e.LoadTemplates(""); err != nil {
 			spanLoad.End()
@@ -354,6 +356,7 @@ func (e *Engine) Render(ctx context.Context, templateName string, data interface
 	} else if e.Debug {
 		_, spanLoad := trace.StartSpan(ctx, "pug/loadTemplate")
 		spanLoad.Annotate(nil, templateName)
+		verifYield("render:before-load")
 		if err := e.LoadTemplates(templateName); err != nil {
 			spanLoad.End()
 			return nil, err
@@ -362,6 +365,7 @@ func (e *Engine) Render(ctx context.Context, templateName string, data interface
 	}
 
 	// make sure template loading has finished by now!
+	verifYield("render:before-lookup")
 	e.RLock()
 
 	result := new(bytes.Buffer)
